@@ -388,7 +388,11 @@ func (h *harness) exercise(row authMsg, pl payload, vs []variant) {
 				if lv == "B" {
 					level = "LvDirect"
 				}
-				h.items = append(h.items, fmt.Sprintf("mk_auth_case %s %s %s %s %s", coqStr(row.URL), level, lib.Bool(validateBasic(m)), runes(v.Value), lib.Bool(err == nil)))
+				it := fmt.Sprintf("mk_auth_case %s %s %s %s %s", coqStr(row.URL), level, lib.Bool(validateBasic(m)), coqAuth(v.Value), lib.Bool(err == nil))
+				if !h.urlIdx[it] { // identical decisions (other chain / payload variant) are evaluated once
+					h.urlIdx[it] = true
+					h.items = append(h.items, it)
+				}
 			}
 		}
 	}
